@@ -100,6 +100,9 @@ form('delete-optcall-method', { ops: ['trim'], instr: false }, F => `delete w.o$
 form('delete-member-of-method-call', { ops: ['substring'], instr: false }, F => `delete ${F.loc()}.substring(1).c`)
 form('delete-computed-tpl-key', { ops: ['tpl'], instr: false }, F => `delete w.o${F.id()}[\`k\${${F.loc()}}\`]`)
 form('delete-then-plus', { ops: ['+'] }, F => `(delete w.o${F.id()}?.s1.substring(1).c) + ${F.loc()} + ${F.f()}`)
+// D7 seen from the outside: a function whose parameter default is instrumented is called while the calling expression
+// has live temporaries (both use the enclosing function's __datadog_*_0..)
+form('addassign-live-temps-across-default-param-call', { ops: ['+=', '+'], kf: 'D7' }, F => { const fn = F.loc(`function (x = ${F.s()} + ${F.f()}) { return x }`); return `w.o${F.id()}.p += ${fn}()` })
 form('minus-only', { ops: [], instr: false }, F => `w.i${F.id()} - w.i${F.id()}`)
 // +=
 form('addassign-ident-lit', { ops: ['+='] }, F => `${F.loc()} += ${F.lit()}`)
@@ -216,6 +219,14 @@ form('opt-arrow-callback-with-inner-chain', { ops: ['concat', 'trim'] }, F => `$
 form('opt-inner-chain-in-computed-key', { ops: ['trim'] }, F => `w.o${F.id()}?.[w.n${F.id()}?.trim() ?? 's1'].trim()`)
 form('opt-root-call-with-inner-chain-arg', { ops: ['trim'] }, F => `w.id${F.id()}(w.n${F.id()}?.trim())?.trim()`)
 form('opt-null-outer-skips-inner', { ops: ['concat', 'trim'] }, F => `w.n${F.id()}?.concat(w.o${F.id()}?.s1.trim(), ${F.f()})`)
+// optional call whose callee is itself a link of the chain: the call must keep its this (formerly lost: D32)
+form('opt-call-on-opt-member', { ops: ['trim'] }, F => `w.o${F.id()}?.f1?.(${F.s()}).trim()`)
+form('opt-call-on-opt-member-local', { ops: ['trim'] }, F => `${F.loc(F.o())}?.f2?.(${F.f()}, ${F.s()}).trim()`)
+form('opt-call-on-opt-computed-member', { ops: ['concat'] }, F => `w.o${F.id()}?.[w.k${F.id()}]?.(${F.s()}).concat(${F.s()})`)
+form('opt-call-on-member-after-opt', { ops: ['trim'], kf: 'D32' }, F => `w.o${F.id()}?.o2.f1?.(${F.s()}).trim()`)
+form('opt-call-on-opt-member-null-fn', { ops: ['trim'] }, F => `w.o${F.id()}?.n1?.(${F.f()}).trim()`)
+form('opt-call-on-opt-member-null-base', { ops: ['trim'] }, F => `w.n${F.id()}?.f1?.(${F.f()}).trim()`)
+form('opt-call-on-member-of-null-after-opt', { ops: ['trim'] }, F => `w.o${F.id()}?.n1.f1?.(${F.s()}).trim()`)
 form('opt-arg-opt', { ops: ['concat', 'trim'] }, F => `${F.loc()}?.concat(${F.loc()}?.trim())`)
 form('opt-nested-arg-guard', { ops: ['trim', 'concat'] }, F => { const o = `w.o${F.id()}`; return `${o}?.n1?.trim().concat(${o}?.s2.trim())` })
 form('opt-shadowed-undefined', { ops: ['trim'], kf: 'D21', sloppy: true }, F => `(function (undefined) { return w.n${F.id()}?.trim() })(5)`)
